@@ -97,6 +97,12 @@ CLAIMS.update({
          "R33a no raw subtraction into Span::new outside a reviewed site; R33b Formatter::fmt cannot panic; R33c no character-unit quantity becomes a byte offset. Found and fixed the template-span defect.", "§4 C33"),
 })
 
+CLAIMS.update({
+ "C20": ("P-CHARSET: P-VAR with an interval domain over the tested character, per parser state",
+         "R20a the serializer's unquoted alphabet is accepted by the JIT path parser in every field state; R20b serializer escapes == parser's decoded escapes; "
+         "R20c the VRL lexer's identifier alphabet is a subset of the parser's. Alphabet agreement only.", "§4 C20"),
+})
+
 NA = {}
 
 def main():
